@@ -28,5 +28,6 @@ def stats_part(ctx, tier):
     from lib.tlc import SPEC_DIR
     if not os.path.exists(os.path.join(SPEC_DIR, cfg + ".cfg")):
         return
-    run_pool(ctx, cfg, ["New", "Add", "IAdd", "Copy", "Mul", "IMul", "Div", "Sub", "Fill"],
-             {"accepted", "stats", "freq", "live"}, [("dyadic", 0), ("neg", 1)], free_too=True)
+    # refused calls (negative factor, array operand, division by zero) are part of the histories: they must leave the statistics alone
+    run_pool(ctx, cfg, ["New", "Add", "IAdd", "Copy", "Mul", "IMul", "Div", "Sub", "Fill", "NegRefused", "ForeignRefused"],
+             {"accepted", "refused", "stats", "freq", "live"}, [("dyadic", 0), ("neg", 1)], free_too=True)
